@@ -103,4 +103,48 @@ Definition check_potential (edges : list (nat * nat)) (cost : list Q) (s : nat) 
   | None => false
   end.
 
+(* ---------------------------------------------------------------- least TOTAL cost with turn (access) costs *)
+(* the turn table as a function: a later duplicate wins, an absent pair costs nothing *)
+Definition turn_of (l : list (nat * nat * Q)) (a b : nat) : Q :=
+  fold_left (fun acc x => if Nat.eqb (fst (fst x)) a && Nat.eqb (snd (fst x)) b then snd x else acc) l 0%Q.
+
+(* total cost of a route: every edge's own cost plus the cost of the turn from the edge before it *)
+Fixpoint route_total (cost : list Q) (turn : nat -> nat -> Q) (prev : option nat) (r : list nat) : Q :=
+  match r with
+  | [] => 0%Q
+  | e :: r' => ((match prev with Some p => turn p e | None => 0 end) + nth e cost 0 + route_total cost turn (Some e) r')%Q
+  end.
+
+(* a feasible potential on EDGES (the objective depends on the previous edge): pi(e) <= c(e) for every edge leaving
+   the source, pi(f) <= pi(e) + turn(e,f) + c(f) for every consecutive pair whose first edge has a finite potential *)
+Definition check_edge_potential (edges : list (nat * nat)) (cost : list Q) (turn : nat -> nat -> Q) (s : nat)
+           (pi : list (option Q)) : bool :=
+  let idx := seq 0 (List.length edges) in
+  forallb (fun i =>
+    match nth_error edges i with
+    | Some (u, v) =>
+        (if Nat.eqb u s then match nth i pi None with Some a => Qle_bool a (nth i cost 0%Q) | None => false end else true)
+        && match nth i pi None with
+           | None => true
+           | Some a =>
+               forallb (fun j =>
+                 match nth_error edges j with
+                 | Some (u', _) =>
+                     if Nat.eqb v u'
+                     then match nth j pi None with Some b => Qle_bool b (a + turn i j + nth j cost 0)%Q | None => false end
+                     else true
+                 | None => true
+                 end) idx
+           end
+    | None => true
+    end) idx.
+
+(* the finite potentials of the edges that arrive at t *)
+Definition potentials_into (edges : list (nat * nat)) (pi : list (option Q)) (t : nat) : list Q :=
+  flat_map (fun i => match nth_error edges i with
+                     | Some (_, v) => if Nat.eqb v t then match nth i pi None with Some b => [b] | None => [] end else []
+                     | None => []
+                     end) (seq 0 (List.length edges)).
+Definition at_most_all (c : Q) (l : list Q) : bool := forallb (fun b => Qle_bool c b) l.
+
 End KspSpec.
